@@ -189,62 +189,6 @@ Proof. intros a p H T. unfold pair_ok in H. rewrite T in H. destruct (p_kind p);
 Lemma pair_ok_nontensor : forall a p, pair_ok a p = true -> is_tensor a = false -> accepts a p = true.
 Proof. intros a p H T. unfold pair_ok in H. rewrite T in H. assumption. Qed.
 
-Theorem binds_ok_sound : forall s f, binds_ok s f = true ->
-  forall c, conforms s c -> exists b, bind f c = OK b /\ binding_good s f c b.
-Proof.
-  intros s f Hok c Hc. apply conforms_spec in Hc as [Hnpos [Hdef [Hkws Hreq]]].
-  unfold binds_ok in Hok. apply andb_true_iff in Hok as [Hok Hkwok]. apply andb_true_iff in Hok as [Hchk Hover].
-  destruct (bind_params_sound (pos_args s) (kw_args s) (c_npos c) (c_kws c) Hnpos Hdef Hkws Hreq (f_params f) 0 Hchk)
-    as [bound [Hb [Hm [Hs Hcov]]]].
-  (* a supplied keyword that some parameter beyond the positional range carries is bound *)
-  assert (Hbound : forall k a, In k (c_kws c) -> find_kw (kw_args s) k = Some a ->
-            has_param_from (length (pos_args s)) (a_name a) (f_params f) = true -> kw_bound k bound = true).
-  { intros k a Hk Hf Hh. apply find_kw_some in Hf as [_ Hname]. rewrite Hname in Hh.
-    unfold has_param_from in Hh. apply existsb_exists in Hh as [p [Hp He]]. apply String.eqb_eq in He.
-    apply In_skipn_nth in Hp as [m Hp]. apply kw_bound_spec. exists p. rewrite <- He.
-    apply (bind_params_kw (f_params f) 0 (c_npos c) (c_kws c) bound Hb _ p Hp); [lia|].
-    rewrite He. apply mem_str_In; assumption. }
-  (* dropped keywords are droppable *)
-  assert (Hdk : forall k, In k (filter (fun k => negb (kw_bound k bound)) (c_kws c)) -> droppable k = true).
-  { intros k Hk. apply filter_In in Hk as [Hk Hnb]. apply negb_true_iff in Hnb.
-    destruct (Hkws k Hk) as [a Ha]. pose proof (find_kw_some _ _ _ Ha) as [Hin Hname].
-    rewrite forallb_forall in Hkwok. specialize (Hkwok a Hin). apply orb_true_iff in Hkwok as [Hh | Hd].
-    - rewrite (Hbound k a Hk Ha Hh) in Hnb. discriminate.
-    - rewrite Hname in Hd. assumption. }
-  unfold bind, bind_signature. rewrite Hb.
-  eexists; split; [reflexivity|].
-  constructor; simpl.
-  - assumption.
-  - intros p src Hin Hne. specialize (Hs p src Hin). destruct src as [j|k|]; simpl in *.
-    + destruct Hs as [_ [_ [a [Ha _]]]]. eauto.
-    + destruct Hs as [_ [_ [a [Ha _]]]]. eauto.
-    + congruence.
-  - intros p i Hin. specialize (Hs p _ Hin). simpl in Hs. tauto.
-  - intros p k Hin. specialize (Hs p _ Hin). simpl in Hs. tauto.
-  - intros p src a Hin Ha Ht. specialize (Hs p src Hin). destruct src as [j|k|]; simpl in *.
-    + destruct Hs as [_ [_ [a' [Ha' Hp]]]]. rewrite Ha in Ha'; inversion Ha'; subst. eapply pair_ok_tensor; eassumption.
-    + destruct Hs as [_ [_ [a' [Ha' Hp]]]]. rewrite Ha in Ha'; inversion Ha'; subst. eapply pair_ok_tensor; eassumption.
-    + discriminate.
-  - intros p src a Hin Ha Ht. specialize (Hs p src Hin). destruct src as [j|k|]; simpl in *.
-    + destruct Hs as [_ [_ [a' [Ha' Hp]]]]. rewrite Ha in Ha'; inversion Ha'; subst. eapply pair_ok_nontensor; eassumption.
-    + destruct Hs as [_ [_ [a' [Ha' Hp]]]]. rewrite Ha in Ha'; inversion Ha'; subst. eapply pair_ok_nontensor; eassumption.
-    + discriminate.
-  - intros p src Hin Hr Heq. subst src. specialize (Hs p _ Hin). simpl in Hs. congruence.
-  - intros i Hi. apply in_seq in Hi.
-    destruct (nth_error (pos_args s) i) as [a|] eqn:N; [|apply nth_error_None in N; lia].
-    exists a; split; [reflexivity|].
-    rewrite forallb_forall in Hover. apply Hover.
-    assert (Hi' : i = length (f_params f) + (i - length (f_params f))) by lia.
-    rewrite Hi' in N. rewrite <- nth_error_skipn_add in N. eapply nth_error_In; eassumption.
-  - intros k Hk. apply (Hdk k Hk).
-  - intros i Hi. destruct (Nat.lt_ge_cases i (length (f_params f))) as [Hlt | Hge].
-    + left. apply Hcov; lia.
-    + right. apply in_seq. lia.
-  - intros k Hk. destruct (kw_bound k bound) eqn:Kb.
-    + left. apply kw_bound_spec; assumption.
-    + right. apply filter_In. split; [assumption | rewrite Kb; reflexivity].
-Qed.
-
 (* Python's own call binding (how the installed exporter actually reaches a trace-only function) against
    the signature binder: it succeeds exactly when the signature binder succeeds and drops nothing, and
    then yields the same binding -- its only difference is that what would be dropped raises. *)
@@ -267,6 +211,80 @@ Proof.
     { apply Nat.ltb_ge. unfold bind_signature in S. destruct (bind_params ps 0 (c_npos c) (c_kws c)); [|discriminate].
       inversion S; subst; simpl in Hp. apply seq_nil_iff in Hp. lia. }
     rewrite L. reflexivity.
+Qed.
+
+Theorem binds_ok_sound : forall s f, binds_ok s f = true ->
+  forall c, conforms s c -> exists b, bind f c = OK b /\ binding_good s f c b.
+Proof.
+  intros s f Hok c Hc. apply conforms_spec in Hc as [Hnpos [Hdef [Hkws Hreq]]].
+  unfold binds_ok in Hok. apply andb_true_iff in Hok as [Hok Hkwok]. apply andb_true_iff in Hok as [Hchk Hover].
+  destruct (bind_params_sound (pos_args s) (kw_args s) (c_npos c) (c_kws c) Hnpos Hdef Hkws Hreq (f_params f) 0 Hchk)
+    as [bound [Hb [Hm [Hs Hcov]]]].
+  (* a supplied keyword that some parameter beyond the positional range carries is bound *)
+  assert (Hbound : forall k a, In k (c_kws c) -> find_kw (kw_args s) k = Some a ->
+            has_param_from (length (pos_args s)) (a_name a) (f_params f) = true -> kw_bound k bound = true).
+  { intros k a Hk Hf Hh. apply find_kw_some in Hf as [_ Hname]. rewrite Hname in Hh.
+    unfold has_param_from in Hh. apply existsb_exists in Hh as [p [Hp He]]. apply String.eqb_eq in He.
+    apply In_skipn_nth in Hp as [m Hp]. apply kw_bound_spec. exists p. rewrite <- He.
+    apply (bind_params_kw (f_params f) 0 (c_npos c) (c_kws c) bound Hb _ p Hp); [lia|].
+    rewrite He. apply mem_str_In; assumption. }
+  (* dropped keywords are droppable, and a trace-only function drops none *)
+  assert (Hdk : forall k, In k (filter (fun k => negb (kw_bound k bound)) (c_kws c)) ->
+            f_traced f = false /\ droppable k = true).
+  { intros k Hk. apply filter_In in Hk as [Hk Hnb]. apply negb_true_iff in Hnb.
+    destruct (Hkws k Hk) as [a Ha]. pose proof (find_kw_some _ _ _ Ha) as [Hin Hname].
+    rewrite forallb_forall in Hkwok. specialize (Hkwok a Hin). apply orb_true_iff in Hkwok as [Hh | Hd].
+    - rewrite (Hbound k a Hk Ha Hh) in Hnb. discriminate.
+    - apply andb_true_iff in Hd as [Ht Hd]. apply negb_true_iff in Ht. rewrite Hname in Hd. split; assumption. }
+  set (dk := filter (fun k => negb (kw_bound k bound)) (c_kws c)) in *.
+  set (b0 := mkB bound (seq (length (f_params f)) (c_npos c - length (f_params f))) dk).
+  assert (Hsig : bind_signature (f_params f) c = OK b0) by (unfold bind_signature; rewrite Hb; reflexivity).
+  exists b0. split.
+  { unfold bind. destruct (f_traced f) eqn:T; [|exact Hsig].
+    apply python_call_vs_signature. split; [exact Hsig|]. simpl. split.
+    - apply seq_nil_iff. apply Nat.leb_le in Hover. lia.
+    - destruct dk as [|k dk'] eqn:Edk; [reflexivity|]. exfalso.
+      destruct (Hdk k) as [Hf _]; [left; reflexivity | congruence]. }
+  subst b0.
+  constructor; simpl.
+  - assumption.
+  - intros p src Hin Hne. specialize (Hs p src Hin). destruct src as [j|k|]; simpl in *.
+    + destruct Hs as [_ [_ [a [Ha _]]]]. eauto.
+    + destruct Hs as [_ [_ [a [Ha _]]]]. eauto.
+    + congruence.
+  - intros p i Hin. specialize (Hs p _ Hin). simpl in Hs. tauto.
+  - intros p k Hin. specialize (Hs p _ Hin). simpl in Hs. tauto.
+  - intros p src a Hin Ha Ht. specialize (Hs p src Hin). destruct src as [j|k|]; simpl in *.
+    + destruct Hs as [_ [_ [a' [Ha' Hp]]]]. rewrite Ha in Ha'; inversion Ha'; subst. eapply pair_ok_tensor; eassumption.
+    + destruct Hs as [_ [_ [a' [Ha' Hp]]]]. rewrite Ha in Ha'; inversion Ha'; subst. eapply pair_ok_tensor; eassumption.
+    + discriminate.
+  - intros p src a Hin Ha Ht. specialize (Hs p src Hin). destruct src as [j|k|]; simpl in *.
+    + destruct Hs as [_ [_ [a' [Ha' Hp]]]]. rewrite Ha in Ha'; inversion Ha'; subst. eapply pair_ok_nontensor; eassumption.
+    + destruct Hs as [_ [_ [a' [Ha' Hp]]]]. rewrite Ha in Ha'; inversion Ha'; subst. eapply pair_ok_nontensor; eassumption.
+    + discriminate.
+  - intros p src Hin Hr Heq. subst src. specialize (Hs p _ Hin). simpl in Hs. congruence.
+  - intros i Hi. apply in_seq in Hi.
+    destruct (nth_error (pos_args s) i) as [a|] eqn:N; [|apply nth_error_None in N; lia].
+    exists a; split; [reflexivity|].
+    destruct (f_traced f).
+    + apply Nat.leb_le in Hover. lia.
+    + rewrite forallb_forall in Hover. apply Hover.
+      assert (Hi' : i = length (f_params f) + (i - length (f_params f))) by lia.
+      rewrite Hi' in N. rewrite <- nth_error_skipn_add in N. eapply nth_error_In; eassumption.
+  - intros k Hk. apply (Hdk k Hk).
+  - intros i Hi. destruct (Nat.lt_ge_cases i (length (f_params f))) as [Hlt | Hge].
+    + left. apply Hcov; lia.
+    + right. apply in_seq. lia.
+  - intros k Hk. destruct (kw_bound k bound) eqn:Kb.
+    + left. apply kw_bound_spec; assumption.
+    + right. apply filter_In. split; [assumption | rewrite Kb; reflexivity].
+Qed.
+
+(* a trace-only function never drops anything: whatever does not fit raises *)
+Lemma traced_never_drops : forall f c b, f_traced f = true -> bind f c = OK b ->
+  b_dropped_pos b = [] /\ b_dropped_kw b = [].
+Proof.
+  intros f c b T H. unfold bind in H. rewrite T in H. apply python_call_vs_signature in H. tauto.
 Qed.
 
 (* the hypotheses of binds_ok_sound are satisfiable on a non-trivial instance:
@@ -297,19 +315,18 @@ Definition mean_schema : schema := [mkA "self" BTensor false false false false; 
 Definition mean_sig : fn_sig := mkF [mkP "self" PInput true] false.
 Lemma mean_refuted : exists c b, conforms mean_schema c /\ bind mean_sig c = OK b /\ In "dtype" (b_dropped_kw b) /\ droppable "dtype" = false.
 Proof. exists (mkC 1 ["dtype"]). eexists. split; [reflexivity|]. split; [reflexivity|]. split; [left; reflexivity | reflexivity]. Qed.
-(* aten::rand_like(Tensor self, *, ..., MemoryFormat? memory_format=None) vs aten_rand_like without that parameter:
-   the signature binder drops the (droppable) keyword, so the entry binds; Python's call binding raises on the same call *)
+(* aten::rand_like(Tensor self, *, ..., MemoryFormat? memory_format=None) vs trace-only aten_rand_like without that
+   parameter: the Python call raises; the signature binder would have dropped the (droppable) keyword *)
 Definition rand_like_schema : schema :=
   [mkA "self" BTensor false false false false; mkA "dtype" BScalarType false true true true; mkA "layout" BLayout false true true true;
    mkA "device" BDevice false true true true; mkA "pin_memory" BBool false true true true; mkA "memory_format" BMemoryFormat false true true true].
 Definition rand_like_sig : fn_sig :=
   mkF [mkP "self" PInput true; mkP "dtype" (PAttr AInt) false; mkP "layout" (PAttr AString) false;
        mkP "device" (PAttr AString) false; mkP "pin_memory" (PAttr AInt) false] true.
-Lemma rand_like_drops_memory_format :
-  binds_ok rand_like_schema rand_like_sig = true /\
-  exists c b, conforms rand_like_schema c /\ bind rand_like_sig c = OK b /\ b_dropped_kw b = ["memory_format"] /\
-              bind_python (f_params rand_like_sig) c = Err (UnexpectedKeyword "memory_format").
-Proof. split; [reflexivity|]. exists (mkC 1 ["memory_format"]). eexists. repeat split. Qed.
+Lemma rand_like_refuted : exists c, conforms rand_like_schema c /\
+  bind rand_like_sig c = Err (UnexpectedKeyword "memory_format") /\
+  exists b, bind_signature (f_params rand_like_sig) c = OK b /\ b_dropped_kw b = ["memory_format"].
+Proof. exists (mkC 1 ["memory_format"]). split; [reflexivity|]. split; [reflexivity|]. eexists. split; reflexivity. Qed.
 
 (* ------------------------------------------------------------------------------------------ names *)
 
